@@ -232,6 +232,18 @@ def sweep_ctor(acc, signed, maxw):
                             acc.fail(grp2, grp2, f"{name}[{l}:{r}](raw={raw}, value={float(v)}) == {float(between)} is True")
                         else:
                             acc.ok(grp2)
+                        if between.denominator == 1:
+                            # formats with a positive right index: integers that are not a multiple of 2**right are not
+                            # representable either (the same number written as a Python int)
+                            try:
+                                ei = bool(x == int(between))
+                            except AssertionError:
+                                acc.ok(grp2)
+                                continue
+                            if ei:
+                                acc.fail(grp2, grp2, f"{name}[{l}:{r}](raw={raw}, value={float(v)}) == {int(between)} (int) is True")
+                            else:
+                                acc.ok(grp2)
         # in-between floats (not representable): truncation toward zero of int(val / 2**exp) is what the code does;
         # the property only speaks about representable numbers -> not checked
         # Signed / Unsigned sources
